@@ -212,6 +212,8 @@ def finish(ctx, replay_prefix=None):
         print("  " + v['detail'].replace('\n', '\n  ')[:1500])
     if len(new) > MAX_REPORT:
         print("  (+%d further distinct violation signatures not written out)" % (len(new) - MAX_REPORT))
+        for v in new[MAX_REPORT:MAX_REPORT + 150]:
+            print("  [%d] sig=%s :: %s" % (v['count'], json.dumps(v['sig'], sort_keys=True), v['detail'][:260]))
 
     n = T.n
     states = n.get('states', 0) + len(T.stateset)
